@@ -688,6 +688,7 @@ static void catalog_a64() {
 
 static void catalog() {
   // numeric values the generator / model need (tie: compared with the model's own constants on every run)
+  printf("ERR InvalidDisplacement %u\n", uint32_t(Error::kInvalidDisplacement));
   printf("ERR ok %u\nERR InvalidArgument %u\nERR InvalidLabel %u\nERR InvalidSection %u\nERR LabelAlreadyBound %u\nERR InvalidOperandSize %u\nERR InvalidInstruction %u\nERR OutOfMemory %u\nERR InvalidState %u\n",
          uint32_t(Error::kOk), uint32_t(Error::kInvalidArgument), uint32_t(Error::kInvalidLabel), uint32_t(Error::kInvalidSection),
          uint32_t(Error::kLabelAlreadyBound), uint32_t(Error::kInvalidOperandSize), uint32_t(Error::kInvalidInstruction), uint32_t(Error::kOutOfMemory), uint32_t(Error::kInvalidState));
@@ -718,6 +719,30 @@ static void catalog() {
 // ------------------------------------------------------------------------------------------------ main
 int main(int argc, char** argv) {
   if (argc >= 2 && !strcmp(argv[1], "catalog")) { catalog(); return 0; }
+  if (argc >= 2 && !strcmp(argv[1], "dec")) {
+    // how the x86 validator's accessors read an operand given as four raw words: the tie of X86Dec.dec_x86
+    std::string l;
+    while (std::getline(std::cin, l)) {
+      std::istringstream is(l); std::vector<std::string> t; std::string w;
+      while (is >> w) t.push_back(w);
+      if (t.size() < 4) continue;
+      Operand_ o = mkop(t, 0);
+      switch (o.op_type()) {
+        case OperandType::kNone: printf("N\n"); break;
+        case OperandType::kReg: printf("R %u %u\n", uint32_t(o.as<Reg>().reg_type()), o.id()); break;
+        case OperandType::kMem: {
+          const x86::Mem& m = o.as<x86::Mem>();
+          printf("M %u %u %u %u %u %lld %u %u %d\n", m.size(), uint32_t(m.base_type()), m.base_id(), uint32_t(m.index_type()), m.index_id(),
+                 (long long)m.offset(), m.segment_id(), uint32_t(m.get_broadcast()), m.is_reg_home() ? 1 : 0);
+          break;
+        }
+        case OperandType::kImm: printf("I %lld\n", (long long)o.as<Imm>().value()); break;
+        case OperandType::kLabel: printf("L\n"); break;
+        default: printf("X\n"); break;
+      }
+    }
+    return 0;
+  }
   bool verbose = false;
   for (int i = 1; i < argc; i++) if (!strcmp(argv[i], "-v")) verbose = true;
   std::string line;
